@@ -1450,6 +1450,13 @@ def longitude_continuity(coordinates, region):
         interval_360 = False
         e = ((e + 180) % 360) - 180
         w = ((w + 180) % 360) - 180
+        # An east boundary that falls exactly on the seam of the interval must
+        # stay on its east end, otherwise the region would have west > east
+        if w > e and e == -180:
+            e = 180
+        elif w > e and e == 0:
+            interval_360 = True
+            e = 360
     region = np.array(region)
     region[:2] = w, e
     # Modify extra coordinates if passed
